@@ -64,6 +64,8 @@ def run_check(pid, tier, seed):
         log('harness error: oracle self-test of %s failed\n%s' % (pid, traceback.format_exc()))
         return 2
     jobs = mod.plan(tier, seed)
+    if tier == 'thorough' and 'VERIF_JOB_LIMIT' not in os.environ:
+        engine.JOB_LIMIT_S = 2400.0       # thorough jobs are larger; a hang is still found, just later
     log('%s %s seed=%d: %d jobs on %d workers (repo=%s)' % (pid, tier, seed, len(jobs), engine.NWORKERS, os.environ.get('VERIF_REPO')))
     try:
         agg = engine.run_jobs(mod.__name__, jobs, log)
